@@ -11,7 +11,7 @@ import vtargets
 
 ID = 'C04'
 LEVEL = 'exploration'
-RULE = ('case = (worker class, target behaviour {cooperative loop, swallows every exception, blocked in sleep, interpreter lock held by a C call, SIGSTOPped, '
+RULE = ('case = (worker class, target behaviour {cooperative loop, swallows every exception, blocked in sleep, interpreter lock held by a C call, SIGSTOPped, result delivered but child process lingering, '
         'already finished, not run}, history of 1-4 calls from {wait(t), terminate(t, force), is_alive(), close()} with t in {0, 0.2, 1}). Thread kinds get only '
         'the first two behaviours and force=False. Oracle per call: elapsed <= 3*(timeouts passed, remote_timeout included) + 10 s; True => is_alive() False and '
         'the child pid is gone; on a dead / finished / not-run worker every call returns True in < 1 s; for process and remote kinds a returned '
@@ -21,7 +21,7 @@ ASSUMPTIONS = ['the bound 3*timeouts + 10 s separates bounded from blocked under
                'the harness installs a SIGTERM handler in the shard so that a self-directed SIGTERM becomes an observation instead of killing the check']
 SHRINK = 'none'
 TIME_BUDGET = {'quick': 170, 'thorough': 1700}
-REQUIRED = {'quick': {'beh:swallow': 20, 'beh:sleep': 15, 'beh:gil': 15, 'beh:stop': 15, 'beh:coop': 20, 'beh:finished': 15, 'beh:norun': 10, 'force_true_on_uncooperative': 30,
+REQUIRED = {'quick': {'beh:swallow': 20, 'beh:sleep': 15, 'beh:gil': 15, 'beh:stop': 15, 'beh:coop': 20, 'beh:finished': 15, 'beh:norun': 10, 'beh:linger': 15, 'force_true_on_uncooperative': 30,
                       'calls_after_death>=2': 40},
             'thorough': {'beh:swallow': 200, 'beh:sleep': 150, 'beh:gil': 150, 'beh:stop': 150, 'force_true_on_uncooperative': 300}}
 _T = [0, 0.2, 1]
@@ -46,7 +46,7 @@ def _ops(thread):
 def strategy(tier):
     th = st.fixed_dictionaries({'kind': st.sampled_from(['thread', 'p_thread']), 'beh': st.sampled_from(['coop', 'swallow', 'finished', 'norun']), 'ops': _ops(True)})
     pr = st.fixed_dictionaries({'kind': st.sampled_from(['process', 'remote', 'p_process', 'p_remote']),
-                                'beh': st.sampled_from(['coop', 'swallow', 'sleep', 'gil', 'stop', 'finished', 'norun']), 'ops': _ops(False)})
+                                'beh': st.sampled_from(['coop', 'swallow', 'sleep', 'gil', 'stop', 'finished', 'norun', 'linger']), 'ops': _ops(False)})
     return st.one_of(th, pr, pr, pr)
 
 
@@ -73,14 +73,14 @@ def run_case(case, ctx):
     target, args = {
         'coop': (vtargets.coop_loop, [100000, started]), 'swallow': (vtargets.swallow_everything, [escape, started]),
         'sleep': (vtargets.sleep_forever, [started]), 'gil': (vtargets.hold_gil, [started]), 'stop': (vtargets.stop_self, [started]),
-        'finished': (vtargets.quick_return, [7]), 'norun': (vtargets.quick_return, [7]),
+        'finished': (vtargets.quick_return, [7]), 'norun': (vtargets.quick_return, [7]), 'linger': (vtargets.linger, [started, 40]),
     }[beh]
     kw = {'name': name}
     if kind.endswith('remote'):
         kw['host'] = IC.server(ctx).addr
     if beh == 'norun':
         kw['run'] = False
-    live_uncoop = beh in ('swallow', 'sleep', 'gil', 'stop')
+    live_uncoop = beh in ('swallow', 'sleep', 'gil', 'stop', 'linger')
     w = None
     records = []
     site0 = f'{kind}:{beh}'
@@ -97,15 +97,15 @@ def run_case(case, ctx):
             out.excluded = 'constructor failed: ' + type(e).__name__
             return out
         pid = w.pid if not thread and beh != 'norun' else None
-        if beh in ('coop', 'swallow', 'sleep', 'gil', 'stop'):
+        if beh in ('coop', 'swallow', 'sleep', 'gil', 'stop', 'linger'):
             t_end = time.monotonic() + 8
             while not os.path.exists(started) and time.monotonic() < t_end:
                 time.sleep(0.005)
             if not os.path.exists(started):
                 out.excluded = 'target did not start within 8 s'
                 return out
-            if beh in ('gil', 'stop', 'sleep'):
-                time.sleep(0.1)
+            if beh in ('gil', 'stop', 'sleep', 'linger'):
+                time.sleep(0.15)
         elif beh == 'finished':
             if persistent:
                 try:
